@@ -202,6 +202,15 @@ func (u *Universe) zeroOfSort(s string) string {
 // callStatic applies the callee's contract or inlines it.
 func (f *Frame) callStatic(callee *ssa.Function, args []Val, reach string, h *Heap, pos token.Pos, rt types.Type) (Val, string) {
 	key := funcKey(callee)
+	if f.top && f.ct != nil {
+		for _, cl := range f.en.activeClauses(f.ct.AtCall[callee.Name()], f.ct) {
+			ctx := f.specCtx(h, nil)
+			ctx.locals = true
+			ctx.callArgs = args
+			name := f.vc.siteName("atcall." + clauseName(cl, 0) + "@" + callee.Name())
+			f.vc.oblige(name, "assert", implies(reach, ctx.evalBool(cl.E)), clauseProps(cl, f.ctProps()), f.where(pos), "at the call of "+callee.Name()+": "+cl.Src)
+		}
+	}
 	ct := f.en.cs.Funcs[key]
 	if ct != nil && !ct.Inline {
 		return f.applyContract(callee, ct, args, reach, h, pos, rt)
